@@ -46,6 +46,9 @@ struct encrypted_layout : bluetoe::link_layer::details::layout_base< encrypted_l
 
 using bluetoe::link_layer::read_buffer;
 
+extern "C" void (*verif_sanitizer_hook)(const char*);      // sanitizer_hooks.cpp
+static void on_sanitizer_report(const char* what) { verif::tracer::crash(what, 0); }
+
 static const int CANARY = 32;
 static const std::uint8_t CANARY_BYTE = 0xA5, STALE_BYTE = 0xEE;
 
@@ -185,6 +188,7 @@ int main(int argc, char** argv) {
     if (argc < 3) return 3;
     std::ifstream in(argv[1]);
     verif::tracer t(argv[2]);
+    verif_sanitizer_hook = on_sanitizer_report;
     verif::command c;
     std::unique_ptr<machine> m;
     while (verif::read_command(in, c)) {
